@@ -269,7 +269,7 @@ fn explore(ctx: &Ctx, rep: &mut Report) {
         rep.merge(r);
     }
     // nesting / long arrays: paths with many components
-    let fams: Vec<(&str, usize)> = vec![("nest-mix", 3), ("nest-mix", 12), ("nest-mix", 40), ("nest-obj", 30), ("nest-arr", 70), ("array", 130), ("array-obj", 40), ("sparse", 3)];
+    let fams: Vec<(&str, usize)> = vec![("nest-mix", 3), ("nest-mix", 12), ("nest-mix", 40), ("nest-obj", 30), ("nest-arr", 70), ("array", 130), ("array-obj", 40), ("sparse", 3), ("siblings", 700), ("siblings", 1200), ("siblings-arr", 1200), ("siblings", if ctx.quick() { 1300 } else { 2500 })];
     let wss = [Ws::Uniform(String::new()), Ws::Uniform(" \n\t\r ".into())];
     let mut r = par_range_in(ctx, "families", (fams.len() * wss.len()) as u64, 1, |i, rep| {
         let (name, p) = fams[i as usize / wss.len()];
@@ -280,7 +280,7 @@ fn explore(ctx: &Ctx, rep: &mut Report) {
         rep.input();
         check_doc(&d, rep);
     });
-    r.mark_exhaustive("families", "deep / wide duplicate-free documents; every byte offset");
+    r.mark_exhaustive("families", "deep / wide duplicate-free documents, incl. three big sibling containers (parent several directory blocks below the node); every byte offset");
     rep.merge(r);
     rep.sample(|| {
         let sp = Space::new(Alphabet::full(), 3);
